@@ -25,6 +25,7 @@ pub fn aggregate_coins(coins: Vec<Coin>) -> (r: Result<Vec<Coin>, StdError>)
         Ok(v) => denoms_distinct(v@)
             && (forall|d: Seq<char>| coin_sum(v@, d) == #[trigger] coin_sum(coins@, d))
             && (forall|i: int| 0 <= i < v@.len() ==> has_denom(coins@, #[trigger] v@[i].denom@))
+            && (forall|k: int| 0 <= k < coins@.len() ==> has_denom(v@, #[trigger] coins@[k].denom@))
             && (coins@.len() > 0 ==> v@.len() > 0) && v@.len() <= coins@.len(),
         Err(_) => true,
     }
@@ -97,6 +98,9 @@ impl<T> SortExt<T> for Vec<T> {
     fn sort_by_<F: Fn(&T, &T) -> core::cmp::Ordering>(&mut self, f: F) { unimplemented!() }
 }
 
+/// `std::cmp::max` (R5)
+#[verifier::external_body]
+pub fn cmp_max(a: Uint128, b: Uint128) -> (r: Uint128) ensures r@ == (if a@ >= b@ { a@ } else { b@ }), r == a || r == b { unimplemented!() }
 /// `std::cmp::min` (R5)
 #[verifier::external_body]
 pub fn cmp_min(a: Uint128, b: Uint128) -> (r: Uint128) ensures r@ == (if a@ <= b@ { a@ } else { b@ }), r == a || r == b { unimplemented!() }
